@@ -1352,6 +1352,7 @@ def classify_finding(script, cfg, impl, err):
 
 import threading as _threading
 _RETRY_LOCK = _threading.Lock()
+_HANG_CONFIRMED = []
 
 
 def run_one(ctx, h, d, script, cfg):
@@ -1361,7 +1362,10 @@ def run_one(ctx, h, d, script, cfg):
         # the watchdog is the only real-time limit that can become a VIOLATION: confirm it by one
         # serial retry with three times the limit (a loaded machine must not look like a wedged server)
         with _RETRY_LOCK:
-            rc, impl, err = ctx.run_lines(h, script, timeout=900, env=dict(env, C04_WATCHDOG="135"))
+            if not _HANG_CONFIRMED:      # one confirmed wedge is enough; later ones are reported as they are
+                rc, impl, err = ctx.run_lines(h, script, timeout=900, env=dict(env, C04_WATCHDOG="135"))
+                if "HANG" in impl:
+                    _HANG_CONFIRMED.append(1)
     fail = None
     if rc != 0:
         kind = "crash"
